@@ -6,36 +6,42 @@
 (* Packets carry the session epoch in which the device sent them.                                         *)
 (* Sanity mutations of the model (not findings):  NoFinally  - an exception leaves the transport lock held *)
 (*                                                NoClear    - connect() does not clear the store          *)
+(*                                                StaleParams - what was derived from the peer's CNXN       *)
+(*                                                  (maxdata -> chunk size) is kept until close()           *)
+(* Every connection is to a peer that announces its own maxdata (devmax); the host sizes what it sends     *)
+(* by hostmax, taken from the CNXN reply of the current connection.                                        *)
 EXTENDS Naturals, FiniteSets, Sequences, TLC
-CONSTANTS MaxFaults, MaxEpoch, NoFinally, NoClear
-VARIABLES pc, tLock, sLock, avail, epoch, wire, store, got, faults, calls
-vars == <<pc, tLock, sLock, avail, epoch, wire, store, got, faults, calls>>
-Init == /\ pc = "idle" /\ tLock = FALSE /\ sLock = FALSE /\ avail = FALSE /\ epoch = 0 /\ wire = {} /\ store = {} /\ got = {} /\ faults = 0 /\ calls = 0
+CONSTANTS MaxFaults, MaxEpoch, NoFinally, NoClear, StaleParams
+VARIABLES pc, tLock, sLock, avail, epoch, wire, store, got, faults, calls, hostmax, devmax
+vars == <<pc, tLock, sLock, avail, epoch, wire, store, got, faults, calls, hostmax, devmax>>
+prm == <<hostmax, devmax>>
+Init == /\ pc = "idle" /\ tLock = FALSE /\ sLock = FALSE /\ avail = FALSE /\ epoch = 0 /\ wire = {} /\ store = {} /\ got = {} /\ faults = 0 /\ calls = 0 /\ hostmax = 0 /\ devmax = 1
 \* an exception inside a with-block: the locks are released on the way out (unless the sanity mutation is on)
 Raise == /\ tLock' = (NoFinally /\ tLock) /\ sLock' = FALSE /\ pc' = "idle"
 CanFail == faults < MaxFaults
 Fail == /\ CanFail /\ faults' = faults + 1
 \* ---- connect(): lock; close transport; clear store; connect; CNXN; read reply
 ConnectBegin == /\ pc = "idle" /\ ~tLock /\ epoch < MaxEpoch /\ tLock' = TRUE /\ avail' = FALSE /\ pc' = "c_close" /\ calls' = calls + 1
-                /\ UNCHANGED <<sLock, epoch, wire, store, got, faults>>
-ConnectClose == /\ pc = "c_close" /\ store' = (IF NoClear THEN store ELSE {}) /\ wire' = {} /\ pc' = "c_conn" /\ UNCHANGED <<tLock, sLock, avail, epoch, got, faults, calls>>
-ConnectConn == /\ pc = "c_conn" /\ epoch' = epoch + 1 /\ pc' = "c_send" /\ UNCHANGED <<tLock, sLock, avail, wire, store, got, faults, calls>>
-ConnectSend == /\ pc = "c_send" /\ wire' = wire \cup {epoch} /\ pc' = "c_read" /\ UNCHANGED <<tLock, sLock, avail, epoch, store, got, faults, calls>>
+                /\ UNCHANGED <<sLock, epoch, wire, store, got, faults>> /\ UNCHANGED prm
+ConnectClose == /\ pc = "c_close" /\ store' = (IF NoClear THEN store ELSE {}) /\ wire' = {} /\ pc' = "c_conn" /\ UNCHANGED <<tLock, sLock, avail, epoch, got, faults, calls>> /\ UNCHANGED prm
+ConnectConn == /\ pc = "c_conn" /\ epoch' = epoch + 1 /\ pc' = "c_send" /\ devmax' \in {1, 2} /\ UNCHANGED <<tLock, sLock, avail, wire, store, got, faults, calls, hostmax>>
+ConnectSend == /\ pc = "c_send" /\ wire' = wire \cup {epoch} /\ pc' = "c_read" /\ UNCHANGED <<tLock, sLock, avail, epoch, store, got, faults, calls>> /\ UNCHANGED prm
 ConnectRead == /\ pc = "c_read" /\ epoch \in wire /\ wire' = wire \ {epoch} /\ avail' = TRUE /\ tLock' = FALSE /\ pc' = "idle"
-               /\ UNCHANGED <<sLock, epoch, store, got, faults, calls>>
-ConnectFail == /\ pc \in {"c_close", "c_conn", "c_send", "c_read"} /\ Fail /\ Raise /\ avail' = FALSE /\ UNCHANGED <<epoch, wire, store, got, calls>>
+               /\ hostmax' = (IF StaleParams /\ hostmax # 0 THEN hostmax ELSE devmax)
+               /\ UNCHANGED <<sLock, epoch, store, got, faults, calls, devmax>>
+ConnectFail == /\ pc \in {"c_close", "c_conn", "c_send", "c_read"} /\ Fail /\ Raise /\ avail' = FALSE /\ UNCHANGED <<epoch, wire, store, got, calls>> /\ UNCHANGED prm
 \* ---- an operation: send under the lock; read under the lock (foreign packets are parked, own packets delivered)
-OpBegin == /\ pc = "idle" /\ avail /\ ~tLock /\ tLock' = TRUE /\ pc' = "o_send" /\ calls' = calls + 1 /\ UNCHANGED <<sLock, avail, epoch, wire, store, got, faults>>
-OpSend == /\ pc = "o_send" /\ wire' = wire \cup {epoch} /\ tLock' = FALSE /\ pc' = "o_lock" /\ UNCHANGED <<sLock, avail, epoch, store, got, faults, calls>>
-OpLock == /\ pc = "o_lock" /\ ~tLock /\ tLock' = TRUE /\ pc' = "o_read" /\ got' = got \cup {e \in store : e # epoch} /\ store' = {} /\ UNCHANGED <<sLock, avail, epoch, wire, faults, calls>>
+OpBegin == /\ pc = "idle" /\ avail /\ ~tLock /\ tLock' = TRUE /\ pc' = "o_send" /\ calls' = calls + 1 /\ UNCHANGED <<sLock, avail, epoch, wire, store, got, faults>> /\ UNCHANGED prm
+OpSend == /\ pc = "o_send" /\ wire' = wire \cup {epoch} /\ tLock' = FALSE /\ pc' = "o_lock" /\ UNCHANGED <<sLock, avail, epoch, store, got, faults, calls>> /\ UNCHANGED prm
+OpLock == /\ pc = "o_lock" /\ ~tLock /\ tLock' = TRUE /\ pc' = "o_read" /\ got' = got \cup {e \in store : e # epoch} /\ store' = {} /\ UNCHANGED <<sLock, avail, epoch, wire, faults, calls>> /\ UNCHANGED prm
 OpRead == /\ pc = "o_read" /\ wire # {} /\ \E e \in wire : /\ wire' = wire \ {e} /\ got' = got \cup (IF e # epoch THEN {e} ELSE {})
-          /\ tLock' = FALSE /\ pc' = "idle" /\ UNCHANGED <<sLock, avail, epoch, store, faults, calls>>
+          /\ tLock' = FALSE /\ pc' = "idle" /\ UNCHANGED <<sLock, avail, epoch, store, faults, calls>> /\ UNCHANGED prm
 \* the device's reply may also be parked instead (another stream's packet): it stays in the store
 OpPark == /\ pc = "o_read" /\ wire # {} /\ \E e \in wire : /\ wire' = wire \ {e} /\ store' = store \cup {e}
-          /\ UNCHANGED <<pc, tLock, sLock, avail, epoch, got, faults, calls>>
-OpFail == /\ pc \in {"o_send", "o_read"} /\ Fail /\ Raise /\ UNCHANGED <<avail, epoch, wire, store, got, calls>>
+          /\ UNCHANGED <<pc, tLock, sLock, avail, epoch, got, faults, calls>> /\ UNCHANGED prm
+OpFail == /\ pc \in {"o_send", "o_read"} /\ Fail /\ Raise /\ UNCHANGED <<avail, epoch, wire, store, got, calls>> /\ UNCHANGED prm
 \* ---- close(): lock; close transport; clear store
-Close == /\ pc = "idle" /\ ~tLock /\ avail' = FALSE /\ store' = {} /\ wire' = {} /\ calls' = calls + 1 /\ UNCHANGED <<pc, tLock, sLock, epoch, got, faults>>
+Close == /\ pc = "idle" /\ ~tLock /\ avail' = FALSE /\ store' = {} /\ wire' = {} /\ calls' = calls + 1 /\ hostmax' = 0 /\ UNCHANGED <<pc, tLock, sLock, epoch, got, faults, devmax>>
 Next == ConnectBegin \/ ConnectClose \/ ConnectConn \/ ConnectSend \/ ConnectRead \/ ConnectFail \/ OpBegin \/ OpSend \/ OpLock \/ OpRead \/ OpPark \/ OpFail \/ Close
 Spec == Init /\ [][Next]_vars
 LocksFreeWhenIdle == pc = "idle" => (~tLock /\ ~sLock)
@@ -43,5 +49,7 @@ LocksFreeWhenIdle == pc = "idle" => (~tLock /\ ~sLock)
 CleanSession == got = {}          \* got collects only packets delivered in a later session than the one that sent them
 \* a device object can always be closed and reconnected: from every idle state connect is enabled (while epochs remain)
 Recoverable == (pc = "idle" /\ epoch < MaxEpoch) => ENABLED ConnectBegin
+\* what the host sends is sized for the peer of the current connection
+SessionParams == avail => hostmax = devmax
 Bound == calls <= 6
 =============================================================================
